@@ -27,7 +27,7 @@ func init() {
 		ID:       "C13",
 		Title:    "DList and SList keep exact sequence semantics with stable node handles",
 		Quick:    16000,
-		Thorough: 600000,
+		Thorough: 150000,
 		Gen:      gen,
 		Corpus:   corpus,
 		Impl:     impl,
@@ -44,7 +44,7 @@ func init() {
 			}
 			return changed >= 3 && noop >= 1
 		},
-		Rule:     "op sequences on two DList[int] (all Push/Insert/Move/Remove forms, node-inserting forms with detached nodes, PushBackDList/PushFrontDList incl. onto itself; handles 60% live / 25% removed / 15% of the other list) or on one SList[int] (index ops with indices -1..len+1 and, one in eight, huge ones: ±2^31±j, ±2^32±j, ±2^33+j, MaxInt-j, MinInt+j; Len/Front/Back/Next observers incl. Next of removed nodes); plus a stream of long lists (100-20000 nodes, thorough up to 65537; bulk pushn/removen, index and handle operations at positions 0, 1, n/2, n-2, n-1, n, n+1, self-copies doubling the list, digests of the full forward/backward/All() traversals) and a stream of phased histories (the same node removed and re-inserted many times through the *Node entry points, move chains, drain - Init - reuse, fill - drain - refill of an SList; every node returned by Remove/RemoveFront re-linked at once through a *Node entry point into the same or a second SList sharing the nodes (line flip); loops allbody/walkbody = range over All() / Front-Next with a body that mutates the list at chosen iterations through handles or indices obtained before the loop); non-trivial = at least three operations changed a list and at least one mutator was a no-op (stale/foreign handle, out-of-range index, move onto itself); a third of the non-large cases run on another element type (header ty=string|float|slice|any|unit|fstruct: NaN and -0, uncomparable slices and structs, any holding mixed dynamic types incl. nil, the zero-size type); setv h v = e.Value = v through the handle between operations; distinct by hash of the op list",
+		Rule:     "op sequences on two (stream `three`: three) DList[int] (all Push/Insert/Move/Remove forms, node-inserting forms with detached nodes, PushBackDList/PushFrontDList incl. onto itself; handles 60% live / 25% removed / 15% of the other list) or on one SList[int] (index ops with indices -1..len+1 and, one in eight, huge ones: ±2^31±j, ±2^32±j, ±2^33+j, MaxInt-j, MinInt+j; Len/Front/Back/Next observers incl. Next of removed nodes); plus a stream of long lists (100-20000 nodes, thorough up to 65537; bulk pushn/removen, index and handle operations at positions 0, 1, n/2, n-2, n-1, n, n+1, self-copies doubling the list, digests of the full forward/backward/All() traversals) and a stream of phased histories (the same node removed and re-inserted many times through the *Node entry points, move chains, drain - Init - reuse, fill - drain - refill of an SList; every node returned by Remove/RemoveFront re-linked at once through a *Node entry point into the same or a second SList sharing the nodes (line flip); loops allbody/walkbody = range over All() / Front-Next with a body that mutates the list at chosen iterations through handles or indices obtained before the loop); non-trivial = at least three operations changed a list and at least one mutator was a no-op (stale/foreign handle, out-of-range index, move onto itself); a stream `misuse` (oracle silent, model tie only): node forms given still-linked nodes of the same or the other list and Init on a non-empty list, followed by further calls; a third of the non-large cases run on another element type (header ty=string|float|slice|any|unit|fstruct: NaN and -0, uncomparable slices and structs, any holding mixed dynamic types incl. nil, the zero-size type); setv h v = e.Value = v through the handle between operations; distinct by hash of the op list",
 		Classify: classify,
 		Parallel: true,
 		Assumptions: []string{
@@ -84,7 +84,18 @@ func gen(r *core.Rand, tier string) core.Case {
 }
 
 func gen0(r *core.Rand, tier string) core.Case {
-	switch r.Pick(3, 16, 181) {
+	large := 3 // 1.5 % long lists in quick; thorough: a third of that share, with the biggest sizes
+	if tier == "thorough" {
+		large = 1
+	}
+	switch r.Pick(large, 16, 167, 6, 8) {
+	case 4: // three DLists interleaved
+		return genD3(r, tier)
+	case 3: // outside the contract: still-linked nodes into node forms, Init on a non-empty list
+		if r.Chance(60) {
+			return genDMisuse(r, tier)
+		}
+		return genSMisuse(r, tier)
 	case 0: // long lists: 1.5 % of the cases (a few hundred in quick)
 		if r.Chance(55) {
 			return genDLarge(r, tier)
@@ -203,6 +214,12 @@ func corpus() []core.Case {
 		{Lines: []string{"@ C13 dlist n n ty=fstruct", "pb A 7", "pb A 7", "pb B 8", "pfl B A", "rm A 2", "rm B 5", "ia A 7 3", "allbody B"}},
 		// values changed behind the list's back between operations: nothing but All()/Remove's result depends on them
 		{Lines: []string{"@ C13 dlist z z", "pb A 1", "pb A 2", "pb A 3", "setv 3 9", "mtf A 3", "setv 3 1", "rm A 3", "setv 3 7", "pbn B 3", "setv 2 2", "mb A 4 2", "pbl B A", "new 4", "setv 7 6", "pfn A 7"}},
+		// outside the contract (oracle silent, model tie only): still-linked nodes into the node forms
+		{Lines: []string{"@ C13 dlist n n", "pb A 1", "pb A 2", "pb A 3", "pb B 4", "pbn A 3", "next 3", "prev 4", "len A", "pfn B 2", "next 2", "prev 3", "len A", "len B", "rm A 2", "rm B 2", "ina A 4 2", "init B", "rm B 5", "len B"}, Tag: "misuse"},
+		{Lines: []string{"@ C13 dlist z z", "pb A 1", "pb A 2", "pbn A 3", "next 3", "pfn A 2", "prev 2", "mtf A 3", "rm A 2", "len A"}, Tag: "misuse"},
+		{Lines: []string{"@ C13 slist z", "pb 1", "pb 2", "pb 3", "pfn 1", "next 1", "len", "rm 0", "get 2", "pbn 0", "next 2", "back", "flip", "pbn 2", "len", "next 2", "flip", "rmf", "swap 0 1"}, Tag: "misuse"},
+		// three lists: foreign handles of either other list, a node travelling A -> B -> C, copies across
+		{Lines: []string{"@ C13 dlist z n z", "pb A 1", "pb B 2", "pb C 3", "rm A 4", "rm B 5", "mb C 5 4", "ia A 7 5", "rm A 3", "pbn B 3", "rm B 3", "pfn C 3", "prev 5", "pbl A C", "pfl C C", "pbl B A", "len A", "len B", "len C", "inb C 4 3", "rm C 9", "next 3"}, Tag: "three"},
 		// SList: head/tail bookkeeping at sizes 0,1,2
 		{Lines: []string{"@ C13 slist", "rmf", "rm 0", "get 0", "pb 1", "rm 0", "pf 2", "rmf", "ins 5 3", "ins -1 4", "ins 1 5", "rm 2", "rm 1", "rm 0", "swap 0 0"}},
 		{Lines: []string{"@ C13 slist", "pb 1", "pb 2", "pb 3", "swap 0 2", "swap 2 1", "swap 1 3", "swap -1 0", "rm 2", "pb 4", "rm 0", "pf 5", "get 2", "get 3", "get -1", "new 9", "insn 1 5", "rm 1", "pbn 5", "rm 3", "pfn 5"}},
